@@ -248,3 +248,65 @@ example : (apiRun { cfg := Ex.cfgT } (initSys 2 3) exApi).alive = [false, false,
     (apiRun { cfg := Ex.cfgT } (initSys 2 3) exApi).w.live.length = 1 := by decide +kernel
 
 end SvModel.Bridge
+
+namespace SvModel.Bridge
+open SvModel Gen History SvModel.System
+
+/-- did the protocol call return? -/
+def apiReturned (ac : ApiCfg) (s : Sys) (op : Op) (f : List Nat) : Bool :=
+  match s.step ac op f with
+  | .ok _ _ => true
+  | .thrown _ _ => false
+
+theorem api_returned_iff (ac : ApiCfg) (s : Sys) (op : Op) (f : List Nat) (m : MOp Int) (A : List Nat) (h : toMOp s op = some m) :
+    apiReturned ac s op f = returned ac.cfg ⟨s.w, A⟩ (m, f) := by
+  have hb := bridge ac s op m { s.w with faults := f } rfl h
+  unfold apiReturned returned Sys.step
+  simp only []
+  cases hr : opM ac s op { s.w with faults := f } with
+  | ok out w => rw [hr] at hb; have hb' : m.run ac.cfg { s.w with faults := f } { s.w with faults := f } = .ok () w := hb.symm; simp only [hb']
+  | thrown e w => rw [hr] at hb; have hb' : m.run ac.cfg { s.w with faults := f } { s.w with faults := f } = .thrown e w := hb.symm; simp only [hb']
+
+/-- the history-language calls of a covered protocol history, and "every call returned" -/
+def CoveredRet (ac : ApiCfg) (U : List Nat) : Sys → List Nat → List (Op × List Nat) → List (MOp Int) → Prop
+  | _, _, [], ms => ms = []
+  | s, A, (op, f) :: h, ms => ∃ m ms', ms = m :: ms' ∧ toMOp s op = some m ∧ m.valid ac.cfg U ⟨s.w, A⟩ ∧ apiReturned ac s op f = true ∧
+      CoveredRet ac U (resSys (s.step ac op f)) (System.step ac.cfg ⟨s.w, A⟩ (m, f)).A h ms'
+
+/-- C01 for the driver's own runs: along a covered history of protocol calls that all returned (each with an arbitrary
+    fault list that did not fire fatally), the constructed containers hold what the corresponding `std::vector`s hold after
+    the same calls (`SpecRun`: the L0 meaning; the source of an element-wise move is left open, as the standard leaves it) -/
+theorem api_refines_rel (ac : ApiCfg) (hpol : StrongPolicy ac.cfg) :
+    ∀ (h : List (Op × List Nat)) (ms : List (MOp Int)) (s : Sys) (A : List Nat) (σ : Nat → List (Val Int)),
+      SysAll ac.cfg s.w [0, 1, 2, 3] A → Tracks ⟨s.w, A⟩ σ → CoveredRet ac [0, 1, 2, 3] s A h ms →
+      ∃ σ' A', SpecRun ms σ σ' ∧ Tracks ⟨(apiRun ac s h).w, A'⟩ σ' ∧ SysAll ac.cfg (apiRun ac s h).w [0, 1, 2, 3] A'
+  | [], ms, s, A, σ, hs, ht, hc => by
+    have : ms = [] := hc
+    subst this
+    exact ⟨σ, A, rfl, ht, hs⟩
+  | (op, f) :: h, ms, s, A, σ, hs, ht, hc => by
+    obtain ⟨m, ms', hms, hm, hv, hret, hrest⟩ := hc
+    subst hms
+    have hret' : returned ac.cfg ⟨s.w, A⟩ (m, f) = true := by rw [← api_returned_iff ac s op f m A hm]; exact hret
+    obtain ⟨σ1, h1, ht1⟩ := (step_tracks ac.cfg [0, 1, 2, 3] hpol ⟨s.w, A⟩ (m, f) σ hs hv ht).1 hret'
+    have hsys := step_sys ac.cfg [0, 1, 2, 3] hpol ⟨s.w, A⟩ (m, f) hs hv
+    have hw := api_step_world ac s op f m A hm
+    rw [resWorld_eq] at hw
+    have ht1' : Tracks ⟨(resSys (s.step ac op f)).w, (System.step ac.cfg ⟨s.w, A⟩ (m, f)).A⟩ σ1 := by
+      rw [hw]; exact ht1
+    have hsys' : SysAll ac.cfg (resSys (s.step ac op f)).w [0, 1, 2, 3] (System.step ac.cfg ⟨s.w, A⟩ (m, f)).A := by
+      rw [hw]; exact hsys
+    obtain ⟨σ', A', hr, ht', hs'⟩ := api_refines_rel ac hpol h ms' _ _ σ1 hsys' ht1' hrest
+    exact ⟨σ', A', ⟨σ1, h1, hr⟩, ht', hs'⟩
+
+/-- non-vacuity: the returning calls of `exApi` -/
+example : CoveredRet { cfg := Ex.cfgT } [0, 1, 2, 3] (initSys 2 3) []
+    [(.newv 0 2 7 0, []), (.pb 0 (.self 1), []), (.newc 2 0 (some 0), []), (.appm 2 0, [])]
+    [.ctorVals 0 0 [7, 7], .on 0 (.pushBackSelf 1), .ctorCopy 2 0 0, .appendMove 2 0] := by
+  refine ⟨_, _, rfl, rfl, ?_, by decide +kernel, _, _, rfl, rfl, ?_, by decide +kernel, _, _, rfl, rfl, ?_, by decide +kernel, _, _, rfl, rfl, ?_, by decide +kernel, rfl⟩
+  · show 0 ∈ [0, 1, 2, 3] ∧ 0 ∉ ([] : List Nat); decide
+  · refine ⟨by decide +kernel, ?_⟩; show 1 < _; decide +kernel
+  · show 2 ∈ [0, 1, 2, 3] ∧ 2 ∉ _ ∧ 0 ∈ _; decide +kernel
+  · show 2 ∈ _ ∧ 0 ∈ _ ∧ 0 ≠ 2; decide +kernel
+
+end SvModel.Bridge
